@@ -3,7 +3,11 @@ package ksw
 import (
 	"bytes"
 	"encoding/json"
+	"os"
+	"path/filepath"
 	"strings"
+
+	acrakeys "github.com/cossacklabs/acra/cmd/acra-keys/keys"
 	"fmt"
 	"testing"
 	"time"
@@ -44,7 +48,7 @@ func (C18) Explore(x *kernel.Explorer, seed uint64) {
 		}
 		plan := &kernel.Plan{Prop: "C18", Seed: kernel.Mix(seed, uint64(i)), Swarm: map[string]int64{
 			"format": int64(format), "cache": -1, "mode": mode, "select": sel,
-			"nonempty": int64(r.Intn(2)),
+			"nonempty": int64(r.Intn(2)), "pubdir": int64(r.Intn(3) / 2),
 			"selmask":  int64(r.Intn(1 << 12)),
 		}}
 		id := 0
@@ -77,7 +81,11 @@ func newBackuper(d *Disk, h *Handle) (backuper, error) {
 		}
 		scratch := kernel.NewWorld(&kernel.Plan{}, false)
 		scratch.MaxSteps = 1 << 60
-		return ksfs.NewKeyBackuper(Root, Root, &simfs.FaultFS{FS: d.FS, W: scratch}, enc, h.KS)
+		pub := Root
+		if d.PubRoot != "" {
+			pub = d.PubRoot
+		}
+		return ksfs.NewKeyBackuper(Root, pub, &simfs.FaultFS{FS: d.FS, W: scratch}, enc, h.KS)
 	}
 	return ksv2.NewKeyBackuper(Root, "", h.V2)
 }
@@ -133,6 +141,10 @@ func (C18) Run(t *testing.T, plan *kernel.Plan, keepLog bool) *kernel.Result {
 		}
 		fm := fmt.Sprintf("v%d", format)
 		src := NewDisk(format, rng)
+		if plan.Sw("pubdir") == 1 && format == 1 {
+			src.PubRoot = "/kspub"
+			_ = src.FS.MkdirAll("/kspub", 0o700) // an operator creates both directories
+		}
 		model := NewModel()
 		s, err := NewSession(w, "C06", 0, src, model, -1)
 		if err != nil {
@@ -154,6 +166,10 @@ func (C18) Run(t *testing.T, plan *kernel.Plan, keepLog bool) *kernel.Result {
 			return
 		}
 		tgt := NewDisk(format, rng)
+		tgt.PubRoot = src.PubRoot
+		if tgt.PubRoot != "" {
+			_ = tgt.FS.MkdirAll(tgt.PubRoot, 0o700)
+		}
 		tgtModel := NewModel()
 		ts, err := NewSession(w, "C06", 0, tgt, tgtModel, -1)
 		if err != nil {
@@ -221,6 +237,14 @@ func (C18) Run(t *testing.T, plan *kernel.Plan, keepLog bool) *kernel.Result {
 				}
 			}
 		}
+		// the bundle travels through files, as acra-keys export writes them; the
+		// files already hold a larger, older bundle (operators re-use file names)
+		if fb, err := c18ThroughFiles(backup, plan.Seed); err != nil {
+			w.Violate("C18", "bundle-file-roundtrip", fm, err.Error())
+			return
+		} else {
+			backup = fb
+		}
 		pre := tgt.Clone()
 		tb, err := newBackuper(tgt, ts.H)
 		if err != nil {
@@ -279,6 +303,15 @@ func (C18) Run(t *testing.T, plan *kernel.Plan, keepLog bool) *kernel.Result {
 				if !bytes.Equal(v.Secret, newest.Val.Secret) || (IsPair(r.Kind) && !bytes.Equal(v.Public, newest.Val.Public)) {
 					w.Violate("C18", "imported-keys-identical", site+"/"+shape(r.Kind), fmt.Sprintf("%s: current key on the target differs from the source", id))
 					continue
+				}
+			}
+			// v2 rings travel whole: seqnums, key states (destroyed keys included) and current marker
+			if format == 2 && explicit && mode != keystore.ExportPublicOnly {
+				loc := strings.TrimSuffix(c07Location(src, r.Kind, r.Client), ".keyring")
+				a, ea := c18RingShape(s.H, loc)
+				b, eb := c18RingShape(th, loc)
+				if ea == nil && (eb != nil || a != b) {
+					w.Violate("C18", "imported-history-identical", site+"/ring-shape", fmt.Sprintf("%s: source ring is [%s], target ring is [%s] (%v)", id, a, b, eb))
 				}
 			}
 			// history, order and current marker travel with "everything" exports
@@ -359,6 +392,65 @@ func sameV2AccessKeys(a, b []byte) bool {
 		return false
 	}
 	return bytes.Equal(ka.Encryption, kb.Encryption) && bytes.Equal(ka.Signature, kb.Signature)
+}
+
+type c18FileParams struct {
+	keystore.Exporter
+	data, keys string
+}
+
+func (p c18FileParams) ExportKeysFile() string          { return p.keys }
+func (p c18FileParams) ExportDataFile() string          { return p.data }
+func (p c18FileParams) ExportIDs() []keystore.ExportID   { return nil }
+func (p c18FileParams) ExportAll() bool                  { return false }
+func (p c18FileParams) ExportPrivate() bool              { return false }
+
+// c18ThroughFiles writes an older, larger bundle and then this bundle into the
+// same two files with the command's own writer and reads them back.
+func c18ThroughFiles(b *keystore.KeysBackup, seed uint64) (*keystore.KeysBackup, error) {
+	dir, err := os.MkdirTemp("", "verif-c18-")
+	if err != nil {
+		return nil, err
+	}
+	defer os.RemoveAll(dir)
+	p := c18FileParams{data: filepath.Join(dir, "bundle.dat"), keys: filepath.Join(dir, "bundle.key")}
+	older := append(append([]byte{}, b.Data...), bytes.Repeat([]byte{0x5a}, 40+int(seed%50))...)
+	olderKeys := append(append([]byte{}, b.Keys...), bytes.Repeat([]byte{0x5a}, 9)...)
+	if err := acrakeys.WriteExportedData(older, olderKeys, p); err != nil {
+		return nil, fmt.Errorf("first export: %w", err)
+	}
+	if err := acrakeys.WriteExportedData(b.Data, b.Keys, p); err != nil {
+		return nil, fmt.Errorf("second export: %w", err)
+	}
+	data, err := os.ReadFile(p.data)
+	if err != nil {
+		return nil, err
+	}
+	keys, err := os.ReadFile(p.keys)
+	if err != nil {
+		return nil, err
+	}
+	return &keystore.KeysBackup{Data: data, Keys: keys}, nil
+}
+
+// c18RingShape describes a v2 ring: seqnums, states and the current marker.
+func c18RingShape(h *Handle, path string) (string, error) {
+	r, err := h.V2.OpenKeyRing(path)
+	if err != nil {
+		return "", err
+	}
+	seqs, err := r.AllKeys()
+	if err != nil {
+		return "", err
+	}
+	cur, cerr := r.CurrentKey()
+	var sb strings.Builder
+	fmt.Fprintf(&sb, "current=%d(%v)", cur, cerr)
+	for _, sq := range seqs {
+		st, _ := r.State(sq)
+		fmt.Fprintf(&sb, " %d:%v", sq, st)
+	}
+	return sb.String(), nil
 }
 
 func c18Public(h *Handle, r *MRing) ([]byte, error) {
